@@ -107,6 +107,9 @@ def showErr (st : St) : ParseErr → String
 
 def bit (b : Bool) : String := if b then "1" else "0"
 
+def showClass : Spec.Linkage.FnClass → String
+  | .globalAlways => "globalAlways" | .localAlways => "localAlways" | .localIfNeeded => "localIfNeeded"
+
 def showObj (st : St) (o : Obj) : String :=
   s!"obj {showSym st o.sym} fn={bit o.isFunction} def={bit o.isDefinition} static={bit o.isStatic} " ++
   s!"inline={bit o.isInline} tent={bit o.isTentative} tls={bit o.isTls} root={bit o.isRoot} live={bit o.isLive} " ++
@@ -123,7 +126,16 @@ def query (st : St) (cmd : String) (arg : String) : List String :=
      s!"flags-frozen {bit (Spec.Linkage.flagsFrozenRegion ds)}",
      s!"inline-frozen-finding {bit (Spec.Linkage.inlineFrozenFinding ds)}",
      s!"dead-static-local {bit (Spec.Linkage.deadStaticLocalRegion ds)}",
-     s!"composite-size {bit (Spec.Linkage.compositeSizeRegion ds)}"]
+     s!"composite-size {bit (Spec.Linkage.compositeSizeRegion ds)}"] ++
+    ((Spec.Linkage.fnNames ds).filterMap (fun f =>
+      let D := Spec.Linkage.fnDecls ds f
+      if Spec.Linkage.fnClass D != Spec.Linkage.fnClassFirst D then
+        some s!"frozen-fn {showSym st (.named f)} {showClass (Spec.Linkage.fnClass D)} {showClass (Spec.Linkage.fnClassFirst D)}"
+      else none)) ++
+    ((Spec.Linkage.fnNames ds).filterMap (fun f =>
+      let D := Spec.Linkage.fnDecls ds f
+      if !Spec.Linkage.fnInternal D && Spec.Linkage.fnInlineDefOnly D then some s!"inline-def-only {showSym st (.named f)}"
+      else none))
   | _ =>
     match parseUnit ds with
     | .error e => [showErr st e]
